@@ -3568,11 +3568,13 @@ fn rewrite_attrs(
 pub(crate) fn rewrite_mod(
     context: &RewriteContext<'_>,
     item: &ast::Item,
+    safety: ast::Safety,
     ident: Ident,
     attrs_shape: Shape,
 ) -> RewriteResult {
     let mut result = String::with_capacity(32);
     result.push_str(&*format_visibility(context, &item.vis));
+    result.push_str(format_safety(safety));
     result.push_str("mod ");
     result.push_str(rewrite_ident(context, ident));
     result.push(';');
